@@ -31,6 +31,7 @@ structure St (N H : Type) where
 
 inductive Op (N H : Type)
   | create (uid : Option Nat) (name : Option N) (ha : Option H)   -- RemoteDevice(stack, uid, name, ha)
+  | createIp (uid : Option Nat) (name : Option N) (ha : Option H) -- IpRemoteDevice(stack, uid, name, ha)
   | add (r : Nat) | move (r : Nat) (new : Nat) | rename (r : Nat) (new : N) | reha (r : Nat) (new : H)
   | remove (r : Nat) | removeAll
   deriving Repr
@@ -67,11 +68,35 @@ def init (defaultName : Nat → N) (defaultHa : H) (puid : Nat) (uid : Option Na
   { puid := p, loc := ⟨u, name.getD (defaultName u), ha.getD defaultHa⟩,
     devs := [], uidR := [], nameR := [], haR := [] }
 
+/-- `IpDevice.__init__`: a given (truthy) ha has its host normalised (`norm`: `aioing.normalizeHost`, then
+'0.0.0.0' → '127.0.0.1', '::' → '::1'), a missing one is `('127.0.0.1', stack.Port)`.  Nothing else normalises:
+`rehaRemote`'s `remote.ha = new` stores `new` as given. -/
+def ipHa (norm : H → H) (defaultIpHa : H) : Option H → H
+  | some h => norm h
+  | none => defaultIpHa
+
+/-- a stack whose local device is an `IpLocalDevice` (as in UdpStack / TcpServerStack) -/
+def initIp (defaultName : Nat → N) (norm : H → H) (defaultIpHa : H) (puid : Nat) (uid : Option Nat)
+    (name : Option N) (ha : Option H) : St N H :=
+  let p := match uid with | some _ => puid | none => puid + 1
+  let u := match uid with | some u => u | none => puid + 1
+  { puid := p, loc := ⟨u, name.getD (defaultName u), ipHa norm defaultIpHa ha⟩,
+    devs := [], uidR := [], nameR := [], haR := [] }
+
 /-- `index = odict.keys().index(old); del odict[old]; odict.insert(index, new, remote)` -/
 def rekey {K : Type} [DecidableEq K] (m : List (K × Nat)) (old new : K) (r : Nat) : List (K × Nat) :=
   pyInsert (ddel m old) (Int.ofNat ((m.map Prod.fst).idxOf old)) (new, r)
 
-def step (defaultName : Nat → N) (defaultHa : H) (s : St N H) : Op N H → St N H × Out
+def step (defaultName : Nat → N) (defaultHa : H) (norm : H → H) (defaultIpHa : H) (s : St N H) :
+    Op N H → St N H × Out
+  | .createIp uid name ha =>
+    -- IpDevice.__init__ normalises, then RemoteDevice.__init__ / Device.__init__
+    let u := match uid with
+      | some u => u
+      | none => findUid (maxUid (usedUids s) + 1) s.puid (usedUids s)
+    let p := match uid with | some _ => s.puid | none => u
+    let d : Dev N H := ⟨u, name.getD (defaultName u), ipHa norm defaultIpHa ha⟩
+    ({ s with puid := p, devs := s.devs ++ [d] }, .ref s.devs.length)
   | .create uid name ha =>
     -- RemoteDevice.__init__ / Device.__init__
     let u := match uid with
